@@ -8,6 +8,7 @@ mod hard;
 mod hard16;
 mod scan;
 mod wide;
+mod pxscan;
 use std::io::{self, BufRead, Write};
 use std::panic::{catch_unwind, AssertUnwindSafe};
 use std::sync::atomic::{AtomicU64, Ordering};
@@ -18,6 +19,10 @@ fn main() {
     if argv.len() == 4 && argv[1] == "--scan" {
         let op = scan::OPS.iter().find(|o| **o == argv[2]).expect("unknown scan op");
         scan::scan(op, argv[3].parse().unwrap());
+        return;
+    }
+    if argv.len() == 5 && argv[1] == "--px-scan" {
+        pxscan::px_scan(&argv[2], argv[3].parse().unwrap(), argv[4].parse().unwrap());
         return;
     }
     if argv.len() == 6 && argv[1] == "--wide-scan" {
